@@ -29,7 +29,7 @@ def values(tier, rnd):
     small = SMALL if tier == "quick" else ALPHA[:16]
     for t in itertools.product(small, repeat=3):
         vals.add("".join(t))
-    for _ in range(400 if tier == "quick" else 1500):
+    for _ in range(400 if tier == "quick" else 800):
         vals.add("".join(rnd.choice(ALPHA) for _ in range(rnd.randint(4, 30))))
     # long values: pipe / read-buffer boundaries (1 KiB, 2 KiB, 4 KiB, 64 KiB) crossed by multi-byte characters
     for n in list(range(1020, 1027)) + list(range(2044, 2050)) + [4093, 4094, 4095, 4096, 8190, 8191, 65533, 65534, 65535, 65536]:
@@ -138,7 +138,7 @@ def run(tier):
 
     def one(val):
         r2 = random.Random(int(hashlib.sha1(val.encode()).hexdigest()[:8], 16) ^ SEED)
-        cfgs = [(IFSES[0], "none")] + r2.sample(allcfg, 6 if tier == "quick" else 14)
+        cfgs = [(IFSES[0], "none")] + r2.sample(allcfg, 6 if tier == "quick" else 10)
         if len(val) > 500:
             cfgs = cfgs[:2] if tier == "quick" else cfgs[:8]        # long values: the buffer boundaries matter, not the configuration
         scr, exp = script(val, cfgs)
@@ -171,7 +171,7 @@ def run(tier):
                 "adversarial alphabet, length 3 over a sub-alphabet, %d special values, seeded random strings of 4-30 characters) x up to %d expansion contexts (argument, assignment, array element, case word, "
                 "here-string, here-document, redirection target, [[ ]] / [ ] operand, for list, declare/export/local, printf -v, functions) x IFS in {unset, empty, ':', 'j', SP NL, '*'} x glob option in %s%s, in a "
                 "directory holding a, ab, .h, 'a b', A and files named after the value" % (2 if tier == "quick" else 3, " (two thirds of the length-2 values thinned in quick)" if tier == "quick" else "", len(vals), len(SPECIAL), len(forms("a")), OPTS,
-                                                                                       " (7 of the 42 IFS x option configurations per value in quick, 15 in thorough)"),
+                                                                                       " (7 of the 42 IFS x option configurations per value in quick, 11 in thorough)"),
         "values": len(vals), "evaluations_A": evalsA, "evaluations_B": evalsB, "exhaustive": False,
         "samples": [{"value": vals[len(vals) // 3], "form": 'F "$x"', "expected": [[vals[len(vals) // 3]]]}],
     }, assumptions=["bash 5.2.15 is the reference for part A and a cross-check of the harness for part B; a case counts only if bash reproduces the expected result",
